@@ -696,7 +696,38 @@ func checkFoPair(c *Ctx, p foPair) {
 					bad += sprintf(" %s: source %d / generated %d;", k, fl.counts[k], gl.counts[k])
 				}
 			}
-			r.Check(bad == "", "C04.c", p.label+"."+l.name, "leaves", pos, sprintf("%d literals agree in order; construct counts agree", len(fl.lits)),
+			// (c2) referenced functions
+			{
+				G := dirFuncs(filepath.Dir(p.gen))
+				imps := map[string]bool{}
+				for _, im := range gf.Imports {
+					if v, err := strconv.Unquote(im.Path.Value); err == nil {
+						imps[filepath.Base(v)] = true
+					}
+				}
+				gr, locals := goFuncRefs(g, G, imps)
+				fr := foFuncRefs(l.all, l.name, G, imps)
+				var diffs []string
+				names := map[string]bool{}
+				for k := range gr {
+					names[k] = true
+				}
+				for k := range fr {
+					names[k] = true
+				}
+				for _, k := range sortedKeysB(names) {
+					if locals[k] {
+						continue // the name is also bound locally: token-level counting cannot tell the two apart
+					}
+					if gr[k] != fr[k] {
+						diffs = append(diffs, sprintf("%s: source %d / generated %d", k, fr[k], gr[k]))
+					}
+				}
+				if len(diffs) > 0 {
+					bad += " referenced functions differ (" + strings.Join(diffs, "; ") + ");"
+				}
+			}
+			r.Check(bad == "", "C04.c", p.label+"."+l.name, "leaves", pos, sprintf("%d literals agree in order; construct counts and referenced functions agree", len(fl.lits)),
 				"construct counts differ between source and generated Go:"+bad+" a conditional, match, pipe or boolean operator exists on one side only")
 		}
 	}
@@ -894,4 +925,298 @@ var c04ImportPins = []pin{
 	{"ntpHasValue", "nf", `(p0.Ftype ne var:New_FType_FUnit)`, "a case has a payload when its type is not unit"},
 	{"rsIsFrtImport", "nf", `match(p0; RootStmt_RSImport -> (payload(RootStmt_RSImport) eq var:frtImportPath); _ -> false)`, "the source already imports frt"},
 	{"rsIsPackage", "nf", `match(p0; RootStmt_RSPackage -> true; _ -> false)`, "package clause"},
+}
+
+// ---------- (c2) function references per definition ----------
+
+// compiler-inserted frt helpers: they have no counterpart token in the source
+var compilerInsertedFrt = map[string]bool{"Pipe": true, "PipeUnit": true, "IfElse": true, "IfElseUnit": true, "IfOnly": true,
+	"OpEqual": true, "OpNotEqual": true, "OpNot": true, "Destr2": true, "Destr3": true, "NewTuple2": true, "NewTuple3": true, "SInterP": true}
+
+var dirFuncsCache = map[string]map[string]bool{}
+
+// dirFuncs: names of the package-level functions declared by the Go files of a directory (syntax only).
+func dirFuncs(dir string) map[string]bool {
+	if m, ok := dirFuncsCache[dir]; ok {
+		return m
+	}
+	m := map[string]bool{}
+	ents, _ := os.ReadDir(dir)
+	fset := token.NewFileSet()
+	for _, e := range ents {
+		if !strings.HasSuffix(e.Name(), ".go") || strings.HasSuffix(e.Name(), "_test.go") {
+			continue
+		}
+		f, err := parser.ParseFile(fset, filepath.Join(dir, e.Name()), nil, parser.SkipObjectResolution)
+		if err != nil {
+			continue
+		}
+		for _, d := range f.Decls {
+			if fd, ok := d.(*ast.FuncDecl); ok && fd.Recv == nil && !strings.HasPrefix(fd.Name.Name, "New_") {
+				m[fd.Name.Name] = true
+			}
+		}
+	}
+	dirFuncsCache[dir] = m
+	return m
+}
+
+// goFuncRefs: multiset of referenced package-level functions (own package: bare name; imported: pkg.Name) in a declaration,
+// and the set of names declared locally inside it.
+func goFuncRefs(n ast.Node, G map[string]bool, imports map[string]bool) (map[string]int, map[string]bool) {
+	refs := map[string]int{}
+	locals := map[string]bool{}
+	skip := map[*ast.Ident]bool{}
+	typeSel := map[*ast.SelectorExpr]bool{}
+	addFieldList := func(fl *ast.FieldList) {
+		if fl == nil {
+			return
+		}
+		for _, f := range fl.List {
+			for _, id := range f.Names {
+				locals[id.Name] = true
+				skip[id] = true
+			}
+		}
+	}
+	// everything inside a type expression is a type reference, not a function reference
+	var markType func(e ast.Expr)
+	markType = func(e ast.Expr) {
+		if e == nil {
+			return
+		}
+		ast.Inspect(e, func(z ast.Node) bool {
+			if id, ok := z.(*ast.Ident); ok {
+				skip[id] = true
+			}
+			if se, ok := z.(*ast.SelectorExpr); ok {
+				typeSel[se] = true
+			}
+			return true
+		})
+	}
+	markFields := func(fl *ast.FieldList) {
+		if fl == nil {
+			return
+		}
+		for _, f := range fl.List {
+			markType(f.Type)
+		}
+	}
+	ast.Inspect(n, func(x ast.Node) bool {
+		switch y := x.(type) {
+		case *ast.FuncType:
+			markFields(y.Params)
+			markFields(y.Results)
+		case *ast.CompositeLit:
+			markType(y.Type)
+		case *ast.ValueSpec:
+			markType(y.Type)
+		case *ast.TypeAssertExpr:
+			markType(y.Type)
+		case *ast.CaseClause:
+			// type switch cases are types; value switch cases are expressions — generated type switches list case structs
+		case *ast.IndexExpr:
+			// f[T](…): explicit instantiation of a function
+			if isFuncRefExpr(y.X, G, imports) {
+				markType(y.Index)
+			}
+		case *ast.IndexListExpr:
+			if isFuncRefExpr(y.X, G, imports) {
+				for _, ix := range y.Indices {
+					markType(ix)
+				}
+			}
+		}
+		return true
+	})
+	ast.Inspect(n, func(x ast.Node) bool {
+		switch y := x.(type) {
+		case *ast.FuncDecl:
+			skip[y.Name] = true
+			addFieldList(y.Type.Params)
+		case *ast.FuncLit:
+			addFieldList(y.Type.Params)
+		case *ast.AssignStmt:
+			if y.Tok == token.DEFINE {
+				for _, l := range y.Lhs {
+					if id, ok := l.(*ast.Ident); ok {
+						locals[id.Name] = true
+						skip[id] = true
+					}
+				}
+			}
+		case *ast.RangeStmt:
+			for _, e := range []ast.Expr{y.Key, y.Value} {
+				if id, ok := e.(*ast.Ident); ok {
+					locals[id.Name] = true
+					skip[id] = true
+				}
+			}
+		case *ast.ValueSpec:
+			for _, id := range y.Names {
+				skip[id] = true
+			}
+		case *ast.KeyValueExpr:
+			if id, ok := y.Key.(*ast.Ident); ok {
+				skip[id] = true // field name of a composite literal
+			}
+		case *ast.SelectorExpr:
+			skip[y.Sel] = true
+			if id, ok := y.X.(*ast.Ident); ok && imports[id.Name] {
+				skip[id] = true
+				if !typeSel[y] && !(id.Name == "frt" && compilerInsertedFrt[y.Sel.Name]) {
+					refs[id.Name+"."+y.Sel.Name]++
+				}
+			}
+		}
+		return true
+	})
+	ast.Inspect(n, func(x ast.Node) bool {
+		if id, ok := x.(*ast.Ident); ok && !skip[id] && G[id.Name] {
+			refs[id.Name]++
+		}
+		return true
+	})
+	return refs, locals
+}
+
+// foFuncRefs: the same multiset read off the Folang tokens of a let definition.
+func foFuncRefs(ts []fo.Tok, defName string, G map[string]bool, imports map[string]bool) map[string]int {
+	refs := map[string]int{}
+	seenName := false
+	countGo := func(src string) {
+		fset := token.NewFileSet()
+		file := fset.AddFile("", fset.Base(), len(src))
+		var s scanner.Scanner
+		s.Init(file, []byte(src), nil, 0)
+		prev, prevLit := token.ILLEGAL, ""
+		pendingPkg := ""
+		for {
+			_, tok, lit := s.Scan()
+			if tok == token.EOF {
+				break
+			}
+			if tok == token.IDENT {
+				switch {
+				case prev == token.PERIOD && pendingPkg != "":
+					if !(pendingPkg == "frt" && compilerInsertedFrt[lit]) {
+						refs[pendingPkg+"."+lit]++
+					}
+				case prev == token.PERIOD:
+				case G[lit]:
+					refs[lit]++
+				}
+			}
+			pendingPkg = ""
+			if tok == token.PERIOD && prev == token.IDENT && imports[prevLit] {
+				pendingPkg = prevLit
+			}
+			prev, prevLit = tok, lit
+		}
+	}
+	toks := fo.NoEOL(ts)
+	// type annotations (": T" up to the closing parenthesis or the "=" of the header) hold type names, not function references
+	inType := make([]bool, len(toks))
+	for i := 0; i < len(toks); i++ {
+		if toks[i].Text != ":" || toks[i].Kind != fo.PUNCT {
+			continue
+		}
+		depth := 0
+		for j := i + 1; j < len(toks); j++ {
+			tx := toks[j].Text
+			if toks[j].Kind == fo.PUNCT {
+				if tx == "(" || tx == "<" || tx == "[" {
+					depth++
+				}
+				if tx == ">" || tx == "]" {
+					depth--
+				}
+				if tx == ")" {
+					if depth == 0 {
+						break
+					}
+					depth--
+				}
+				if tx == "=" && depth <= 0 {
+					break
+				}
+			}
+			inType[j] = true
+		}
+	}
+	// explicit type arguments: an identifier directly followed (no space) by "<" … ">"
+	for i := 0; i+1 < len(toks); i++ {
+		if toks[i].Kind == fo.IDENT && toks[i+1].Text == "<" && toks[i+1].Kind == fo.PUNCT && toks[i+1].Off == toks[i].Off+len(toks[i].Text) {
+			depth := 0
+			for j := i + 1; j < len(toks); j++ {
+				if toks[j].Kind == fo.PUNCT && toks[j].Text == "<" {
+					depth++
+				}
+				if toks[j].Kind == fo.PUNCT && toks[j].Text == ">" {
+					depth--
+				}
+				if toks[j].Kind == fo.PUNCT && toks[j].Text == ">>" {
+					depth -= 2
+				}
+				inType[j] = true
+				if depth <= 0 {
+					break
+				}
+			}
+		}
+	}
+	for i, t := range toks {
+		if inType[i] {
+			continue
+		}
+		switch t.Kind {
+		case fo.STRING, fo.RAWSTR:
+			// GoEval text is Go code emitted verbatim
+			for j := i - 1; j >= 0 && j >= i-12; j-- {
+				if toks[j].Kind == fo.IDENT && toks[j].Text == "GoEval" {
+					countGo(goEvalText(t))
+					break
+				}
+				if toks[j].Kind == fo.STRING || toks[j].Kind == fo.RAWSTR {
+					break
+				}
+			}
+		case fo.IDENT:
+			if !seenName && t.Text == defName {
+				seenName = true
+				continue
+			}
+			prevDot := i > 0 && toks[i-1].Text == "."
+			nextDot := i+1 < len(toks) && toks[i+1].Text == "."
+			if prevDot {
+				if i >= 2 && toks[i-2].Kind == fo.IDENT && imports[toks[i-2].Text] && !(i >= 3 && toks[i-3].Text == ".") {
+					if !(toks[i-2].Text == "frt" && compilerInsertedFrt[t.Text]) {
+						refs[toks[i-2].Text+"."+t.Text]++
+					}
+				}
+				continue
+			}
+			if nextDot && imports[t.Text] {
+				continue // the package part of a qualified name
+			}
+			if G[t.Text] {
+				refs[t.Text]++
+			}
+		}
+	}
+	return refs
+}
+
+
+func isFuncRefExpr(e ast.Expr, G map[string]bool, imports map[string]bool) bool {
+	switch x := e.(type) {
+	case *ast.Ident:
+		return G[x.Name]
+	case *ast.SelectorExpr:
+		if id, ok := x.X.(*ast.Ident); ok && imports[id.Name] {
+			return true
+		}
+	}
+	return false
 }
